@@ -824,6 +824,7 @@ def judge(I, st, plan, failures, model_of):
             fail("C02", "a rule was handled more than once in one build")
         if producers_ok and entered != 1:
             fail("C04", "a rule none of whose producers failed was not brought up to date")
+            failures[-1]["also"] = ["C17"]
         if not producers_ok and entered != 0:
             fail("C04", "a rule ran although one of its producers failed or was cancelled")
         if ("node", k) in m["fail"]:
@@ -832,6 +833,7 @@ def judge(I, st, plan, failures, model_of):
             fail("C02", "the history of a finished rule was not written back (the next build would run its command again)")
         if k not in m["node_ok"] and m["hist_written"].get(k, 0) != 0:
             fail("C04", "history was written back for a rule that failed or did not run")
+            failures[-1]["also"] = ["C17"]
         for s in range(nt):
             mine = [b for b in m["banners"] if b[1] == plan.target(k, s)]
             if k in m["node_ok"]:
@@ -1060,6 +1062,7 @@ CLAUSES = {
     "C05": "build() and clean(): no deadlock (some thread can always move until all have ended), no panic, every edge carries exactly one packet, no receiver is dropped before its packet arrived, the result is Ok or WorkErrors",
     "C09": "every worker (build and clean) is handed exactly its own targets (rule) or its one leaf",
     "C10": "clean() starts a worker on the targets of every rule of the plan",
+    "C17": "build-level half: a rule whose work fails (a contradiction is one such failure) has nothing written back to its history, and every rule that does not depend on it is still handled",
     "C20": "one status line per target of every finished rule, saying Built iff the rule's command ran, else the target's own resolution; none for failed or cancelled rules",
 }
 
